@@ -100,16 +100,16 @@ type asmReg struct {
 type asmXmm [2]*Term // 64-bit halves, low first
 
 type asmRun struct {
-	fn      *asmFunc
-	regs    map[string]asmReg
-	xmm     map[string]asmXmm
-	idx     uint64
-	cmp     int // result of the last CMPQ (-1, 0, 1)
-	stores  map[int64]*Term
-	loads   map[int64]bool
-	cell    func(base string, off int64) *Term
-	err     string
-	steps   int
+	fn     *asmFunc
+	regs   map[string]asmReg
+	xmm    map[string]asmXmm
+	idx    uint64
+	cmp    int // result of the last CMPQ (-1, 0, 1)
+	stores map[int64]*Term
+	loads  map[int64]bool
+	cell   func(base string, off int64) *Term
+	err    string
+	steps  int
 }
 
 var maxU64Big = new(big.Int).Sub(new(big.Int).Lsh(big1, 64), big1)
